@@ -571,8 +571,9 @@ pub fn classify_idempotence(src: &[u8], o: &Opts) -> String {
 }
 
 // ------------------------------------------------------------------ Coq printers
-fn coq_tok(t: &VTok, it: &mut Interner) -> String {
-    let lines = |l: &Vec<Vec<u8>>, it: &mut Interner| { let mut b = vec![]; for x in l { b.extend_from_slice(x); b.push(0); } it.id(&b) };
+fn coq_tok(t: &VTok, _it: &mut Interner) -> String {
+    let b = |s: &Vec<u8>| format!("[{}]", s.iter().map(|x| x.to_string()).collect::<Vec<_>>().join(";"));
+    let lines = |l: &Vec<Vec<u8>>| format!("[{}]", l.iter().map(|x| b(x)).collect::<Vec<_>>().join(";"));
     match t {
         VTok::None => "TNone".into(),
         VTok::Begin(k) => format!("TBegin {}", *k as u16),
@@ -585,18 +586,18 @@ fn coq_tok(t: &VTok, it: &mut Interner) -> String {
         VTok::AlignmentMarker => "TAlignmentMarker".into(),
         VTok::Whitespace => "TWhitespace".into(),
         VTok::Tab => "TTab".into(),
-        VTok::Comment(s) => format!("TComment {}", it.id(s)),
-        VTok::BlockComment(l) => format!("TBlockComment {}", lines(l, it)),
-        VTok::HeadComment(l) => format!("THeadComment {}", lines(l, it)),
-        VTok::TailComment(l) => format!("TTailComment {}", lines(l, it)),
-        VTok::InlineComment(l) => format!("TInlineComment {}", lines(l, it)),
+        VTok::Comment(s) => format!("TComment {}", b(s)),
+        VTok::BlockComment(l) => format!("TBlockComment {}", lines(l)),
+        VTok::HeadComment(l) => format!("THeadComment {}", lines(l)),
+        VTok::TailComment(l) => format!("TTailComment {}", lines(l)),
+        VTok::InlineComment(l) => format!("TInlineComment {}", lines(l)),
         VTok::Newline => "TNewline".into(),
-        VTok::Identifier(s) => format!("TIdentifier {}", it.id(s)),
-        VTok::Keyword(s) => format!("TKeyword {}", it.id(s)),
-        VTok::Punctuation(s) => format!("TPunctuation {}", it.id(s)),
-        VTok::Literal(s) => format!("TLiteral {}", it.id(s)),
-        VTok::LGrouping(s) => format!("TLGrouping {}", it.id(s)),
-        VTok::RGrouping(s) => format!("TRGrouping {}", it.id(s)),
+        VTok::Identifier(s) => format!("TIdentifier {}", b(s)),
+        VTok::Keyword(s) => format!("TKeyword {}", b(s)),
+        VTok::Punctuation(s) => format!("TPunctuation {}", b(s)),
+        VTok::Literal(s) => format!("TLiteral {}", b(s)),
+        VTok::LGrouping(s) => format!("TLGrouping {}", b(s)),
+        VTok::RGrouping(s) => format!("TRGrouping {}", b(s)),
     }
 }
 fn coq_toks(ts: &[VTok], it: &mut Interner) -> String {
@@ -743,7 +744,7 @@ pub fn run(args: &[String]) -> i32 {
     let n_proc = arg_u64(args, "--n-proc", 400) as usize;
     let opts_per_source = arg_u64(args, "--opts", 2) as usize;
     let out = arg_val(args, "--out").expect("--out");
-    let prelude = "From Coq Require Import List NArith ZArith Bool.\nFrom YV Require Import Fmt.Tokens Gen.FmtCats Fmt.Processor Fmt.Bubble Fmt.FmtCheck.\nImport ListNotations.\nLocal Open Scope N_scope.\n";
+    let prelude = "From Coq Require Import List NArith ZArith Bool.\nFrom YV Require Import Fmt.Tokens Gen.FmtCats Fmt.Processor Fmt.Bubble Fmt.Stages Fmt.FmtCheck.\nImport ListNotations.\nLocal Open Scope N_scope.\n";
     let mut shards = Shards::new(Path::new(&out), prelude, 150);
     let mut rng = Rng::new(seed);
     let mut stats = Stats::default();
@@ -887,6 +888,61 @@ pub fn run(args: &[String]) -> i32 {
             }
         }
         n_k += 1;
+    }
+    // ---------------- the five hand-written stages (hook) against Fmt/Stages.v
+    let n_stage = arg_u64(args, "--n-stage", (n_proc as u64) / 2) as usize;
+    let mut n_s = 0usize;
+    while n_s < n_stage {
+        let src = if rng.chance(1, 2) { small_source(&mut rng) } else {
+            let mut lex = gen_lexemes(&mut rng); if rng.chance(1, 8) { mutate(&mut rng, &mut lex); }
+            let style = *rng.pick(&[1u64, 2, 2, 2, 4, 0]); render(&mut rng, &lex, style) };
+        let mut toks = match catch(AssertUnwindSafe(|| hook::tokens_of(src.as_bytes()))) { Ok(t) => t, Err(_) => continue };
+        if toks.len() > 400 { toks.truncate(400); }
+        let mut it = Interner::new();
+        let which = rng.below(5);
+        let tab = *rng.pick(&[4usize, 1, 2, 8, 0]);
+        // streams for the later stages: comments typed and original spaces dropped by the real stages
+        let prepared = |toks: &Vec<VTok>| -> Vec<VTok> {
+            let c = catch(AssertUnwindSafe(|| hook::run_stage(&hook::VStage::Comments { tab_size: 4 }, toks))).unwrap_or_else(|_| toks.clone());
+            let rules = vec![(VCond::Is(1, 0x200), VAction::Drop)];
+            catch(AssertUnwindSafe(|| hook::run_processor(1, &rules, &c, 100000))).map(|x| x.0).unwrap_or(c)
+        };
+        let sprinkle = |rng: &mut Rng, v: &mut Vec<VTok>, what: &[VTok], every: u64| {
+            let mut i = 0; while i < v.len() { if rng.chance(1, every) { v.insert(i, rng.pick(what).clone()); i += 1; } i += 1; } };
+        let (stage, stage_coq, input): (hook::VStage, String, Vec<VTok>) = match which {
+            0 => (hook::VStage::Comments { tab_size: tab }, format!("HComments {}%nat", tab), {
+                let mut v = toks.clone(); if rng.chance(1, 6) { sprinkle(&mut rng, &mut v, &[VTok::Tab, VTok::Whitespace, VTok::Newline, VTok::Indentation(1)], 9); } v }),
+            1 => (hook::VStage::HexPatterns, "HHex".into(), {
+                let mut v = if rng.chance(1, 3) { toks.clone() } else { prepared(&toks) };
+                if rng.chance(1, 2) { sprinkle(&mut rng, &mut v, &[VTok::Newline, VTok::Newline, VTok::Begin(SyntaxKind::HEX_PATTERN), VTok::End(SyntaxKind::HEX_PATTERN), VTok::Punctuation(b"{".to_vec()), VTok::Punctuation(b"}".to_vec())], 12); } v }),
+            2 => (hook::VStage::Align, "HAlign".into(), {
+                let mut v = prepared(&toks);
+                let every = 4 + rng.below(10);
+                // mostly well-formed blocks: Begin ... Marker ... End, sometimes unbalanced / nested
+                let mut out = vec![]; let mut open = false;
+                for t in v.drain(..) {
+                    if rng.chance(1, every) { if open { out.push(VTok::AlignmentBlockEnd); open = false; } else { out.push(VTok::AlignmentBlockBegin); open = true; } }
+                    if open && rng.chance(1, 5) { out.push(VTok::AlignmentMarker); }
+                    if rng.chance(1, 60) { out.push(rng.pick(&[VTok::AlignmentBlockBegin, VTok::AlignmentBlockEnd, VTok::AlignmentMarker]).clone()); }
+                    if rng.chance(1, 9) { out.push(VTok::Whitespace); }
+                    out.push(t);
+                }
+                if open && rng.chance(3, 4) { out.push(VTok::AlignmentBlockEnd); }
+                out }),
+            3 => { let sp = *rng.pick(&[Some(2usize), Some(4), Some(0), Some(1), None]);
+                (hook::VStage::AddIndentation { spaces: sp }, format!("HIndent {}", match sp { Some(n) => format!("(Some {}%nat)", n), None => "None".into() }), {
+                let mut v = prepared(&toks); sprinkle(&mut rng, &mut v, &[VTok::Indentation(1), VTok::Indentation(1), VTok::Indentation(-1), VTok::Indentation(-2), VTok::Indentation(3), VTok::Newline], 6); v }) }
+            _ => (hook::VStage::TrailingSpaces, "HTrailing".into(), {
+                let mut v = if rng.chance(1, 2) { toks.clone() } else { prepared(&toks) };
+                sprinkle(&mut rng, &mut v, &[VTok::Whitespace, VTok::Tab, VTok::Whitespace, VTok::Indentation(1), VTok::AlignmentMarker, VTok::Newline], 5); v }),
+        };
+        let mut input = input; if input.len() > 300 { input.truncate(300); }
+        let res = catch(AssertUnwindSafe(|| hook::run_stage(&stage, &input))).ok();
+        stats.inc(&format!("k_stage_{}", match which { 0 => "comments", 1 => "hex_patterns", 2 => "align", 3 => "add_indentation", _ => "trailing_spaces" }));
+        match &res { None => stats.inc("k_stage_panic"), Some(o) => if *o != input { stats.inc("k_stage_changed") } else { stats.inc("k_stage_identity") } }
+        let case = format!("CStage ({}) {} {}", stage_coq, coq_toks(&input, &mut it), match &res { None => "None".to_string(), Some(r) => format!("(Some {})", coq_toks(r, &mut it)) });
+        shards.push(case, format!("{{\"kind\":\"stage\",\"stage\":{},\"source\":{}}}", json_str(&stage_coq), json_str(&src)));
+        n_s += 1;
     }
     shards.flush();
     println!("{{\"evaluations\":{},\"distinct_nontrivial\":{},\"shards\":{},\"distribution\":{},\"samples\":[{}]}}",
